@@ -2014,6 +2014,162 @@ def observations(ctx):
 
 
 # ---------------------------------------------------------------------------------------
+# (6b) systematic einsum grid over <= 4 symbols for all three numpy backends
+# ---------------------------------------------------------------------------------------
+
+SEMIRINGS3 = {"funsor.einsum.numpy_log": "log", "funsor.einsum.numpy_map": "max", "numpy": "real"}
+
+
+def sr_oracle(eq, operands, mode):
+    """independent semiring contraction: align every operand to the sorted symbol order by transpose+reshape,
+    combine by broadcasting, reduce the contracted axes, permute to the requested output order"""
+    ins, out = eq.split("->")
+    ins = ins.split(",")
+    syms = sorted(set("".join(ins)))
+    acc = None
+    for dims, o in zip(ins, operands):
+        order = sorted(range(len(dims)), key=lambda k: dims[k])
+        t = np.transpose(np.asarray(o, dtype=np.float64), order)
+        have = sorted(dims)
+        shape = [t.shape[have.index(sy)] if sy in have else 1 for sy in syms]
+        t = t.reshape(shape)
+        acc = t if acc is None else (acc * t if mode == "real" else acc + t)
+    axes = tuple(k for k, sy in enumerate(syms) if sy not in out)
+    if axes:
+        if mode == "real":
+            acc = acc.sum(axis=axes)
+        elif mode == "max":
+            acc = acc.max(axis=axes)
+        else:
+            with np.errstate(all="ignore"):
+                m = acc.max(axis=axes, keepdims=True)
+                m0 = np.where(np.isfinite(m), m, 0.0)
+                acc = np.log(np.exp(acc - m0).sum(axis=axes)) + np.squeeze(m0, axis=axes)
+    kept = [sy for sy in syms if sy in out]
+    return np.transpose(acc, [kept.index(sy) for sy in out]) if out else acc
+
+
+def all_dims_strings(symbols):
+    out = []
+    for k in range(1, len(symbols) + 1):
+        for sub in itertools.permutations(symbols, k):
+            out.append("".join(sub))
+    return out
+
+
+def all_outputs(symbols):
+    out = [""]
+    for k in range(1, len(symbols) + 1):
+        for sub in itertools.permutations(symbols, k):
+            out.append("".join(sub))
+    return out
+
+
+def einsum_equations(rng, n_sample, n_random):
+    """always: single operand × every permuted/reduced output; identical dims on 2-3 operands × every output;
+    transposed full operands × every output.  Then a deterministic sample of the rest of the enumeration."""
+    eqs = []
+    must = []
+    for d in ("ab", "abc", "abcd", "ba", "cab", "dbca"):
+        for out in all_outputs(sorted(d)):
+            must.append(([d], out))
+            must.append(([d, d], out))
+            if len(d) <= 3:
+                must.append(([d, d, d], out))
+    for trio in (["ab", "ba"], ["abc", "cba"], ["abc", "bca"], ["abc", "bca", "cab"], ["abcd", "dcba"], ["ab", "ba", "ab"],
+                 ["abc", "acb", "b"], ["abcd", "badc", "cd"]):
+        for out in all_outputs(sorted(set("".join(trio)))):
+            must.append((trio, out))
+    rng.shuffle(must)
+    core = [m for m in must if len(m[1]) >= 2 and len(set(m[0])) == 1][:60] + must[:n_sample]
+    eqs += core
+    strings = all_dims_strings("abcd")
+    for _ in range(n_random):
+        k = rng.choice([1, 2, 2, 3, 3])
+        ins = [rng.choice(strings) for _ in range(k)]
+        if rng.random() < 0.3:
+            ins = [ins[0]] * k if rng.random() < 0.5 else ["".join(rng.sample(ins[0], len(ins[0]))) for _ in range(k)]
+        used = sorted(set("".join(ins)))
+        outs = rng.sample(used, rng.randint(0, len(used)))
+        eqs.append((ins, "".join(outs)))
+    return eqs
+
+
+def einsum_systematic(ctx, n_sample, n_random, funsor_every=3):
+    import opt_einsum
+    from collections import OrderedDict as OD
+    from funsor.einsum import einsum as funsor_einsum
+    from funsor.einsum.numpy_log import einsum as log_einsum
+    from funsor.einsum.numpy_map import einsum as map_einsum
+    from funsor.tensor import Tensor
+    from funsor.domains import Bint
+    rng = ctx.rng
+    direct = {"funsor.einsum.numpy_log": log_einsum, "funsor.einsum.numpy_map": map_einsum,
+              "numpy": lambda eq, *o: np.einsum(eq, *o)}
+    for idx, (ins, out) in enumerate(einsum_equations(rng, n_sample, n_random)):
+        eq = ",".join(ins) + "->" + out
+        sizes = dict(zip("abcd", rng.choice([(2, 2, 2, 2), (3, 3, 3, 3), (2, 3, 4, 5), (5, 2, 3, 4), (3, 4, 2, 5)])))
+        for backend, mode in SEMIRINGS3.items():
+            operands = []
+            for d in ins:
+                shape = tuple(sizes[c] for c in d)
+                nel = int(np.prod(shape))
+                if mode == "real":
+                    v = [float(rng.choice([0, 1, 2, 3, 1, 2])) for _ in range(nel)]
+                else:
+                    v = [(-INF if rng.random() < 0.15 else float(rng.randint(-4, 6))) for _ in range(nel)]
+                operands.append(np.array(v).reshape(shape))
+            exp = sr_oracle(eq, operands, mode)
+            tol = 1e-9 if mode == "log" else 0.0
+            paths = [("direct", lambda: direct[backend](eq, *operands))]
+            if backend != "numpy":
+                paths.append(("opt_einsum", lambda: opt_einsum.contract(eq, *operands, backend=backend)))
+            if idx % funsor_every == 0 and all(len(set(d)) == len(d) for d in ins):
+                def via_funsor():
+                    ts = [Tensor(o, OD((c, Bint[sizes[c]]) for c in d)) for d, o in zip(ins, operands)]
+                    r = funsor_einsum(eq, *ts, backend=backend)
+                    if not isinstance(r, Tensor):
+                        return np.asarray(r.data) if hasattr(r, "data") else ("EXC", "lazy")
+                    if set(r.inputs) != set(out):
+                        return ("EXC", f"inputs {list(r.inputs)}")
+                    return np.asarray(r.align(tuple(out)).data)
+                paths.append(("funsor.einsum", via_funsor))
+            for pname, fn in paths:
+                r = call(fn)
+                ctx.count(f"einsum-sys:{pname}:{mode}")
+                if is_exc(r):
+                    ctx.count(f"einsum-sys:declined:{pname}:{mode}:{r[1][:30]}")
+                    continue
+                r = np.asarray(r, dtype=np.float64)
+                ok = r.shape == exp.shape and all(a == b or (tol and math.isfinite(a) and math.isfinite(b) and
+                                                              abs(a - b) <= tol * max(1.0, abs(b)))
+                                                  for a, b in zip(r.ravel().tolist(), exp.ravel().tolist()))
+                if ok:
+                    if pname == "direct":
+                        ctx.case(sample=dict(op="einsum-systematic", equation=eq, backend=backend) if idx == 0 else None,
+                                 nontrivial_key=("einsum-sys", eq, backend, tuple(o.tobytes() for o in operands)))
+                    continue
+                osrc = ", ".join(arr_src(o) for o in operands)
+                if pname == "direct":
+                    callsrc = ("np.einsum" if backend == "numpy" else f"__import__('{backend}', fromlist=['einsum']).einsum") + f"({eq!r}, *operands)"
+                elif pname == "opt_einsum":
+                    callsrc = f"__import__('opt_einsum').contract({eq!r}, *operands, backend={backend!r})"
+                else:
+                    callsrc = (f"(lambda r: np.asarray(r.align(tuple({out!r})).data) if hasattr(r, 'align') and {out!r} else np.asarray(r.data))("
+                               f"__import__('funsor.einsum', fromlist=['einsum']).einsum({eq!r}, *[funsor.tensor.Tensor(o, OrderedDict((c, funsor.Bint[o.shape[k]]) "
+                               f"for k, c in enumerate(d))) for d, o in zip({ins!r}, operands)], backend={backend!r}))")
+                ctx.fail("input", f"C15.einsum-sys:{pname}:{backend.split('.')[-1]}",
+                         witness=dict(equation=eq, backend=backend, path=pname, sizes={c: sizes[c] for c in sorted(set(''.join(ins)))},
+                                      operands=[jv(o) for o in operands]),
+                         expected=dict(shape=list(exp.shape), values=jv(exp)), got=dict(shape=list(r.shape), values=jv(r)),
+                         python=PRELUDE + "from collections import OrderedDict\nimport funsor.tensor\n"
+                         f"operands = [{osrc}]\nr = np.asarray({callsrc}, dtype=float)\nprint(r)\ne = {arr_src(exp)}\n"
+                         f"FAILS = r.shape != e.shape or not all(x == y or (math.isfinite(x) and math.isfinite(y) and abs(x - y) <= 1e-9 * max(1.0, abs(y))) "
+                         "for x, y in zip(r.ravel().tolist(), e.ravel().tolist()))\n")
+                break
+
+
+# ---------------------------------------------------------------------------------------
 # (8) multi-step histories across float precisions (fresh process per history)
 # ---------------------------------------------------------------------------------------
 
@@ -2195,6 +2351,7 @@ def correspond(ctx):
             agreement_grid(ctx)
             special_grid(ctx)
     many_dim_stream(ctx, 3000 if big else 200)
+    einsum_systematic(ctx, 6000 if big else 500, 6000 if big else 400)
     history_stream(ctx)
     kf_stream(ctx)
     kf2_stream(ctx)
@@ -2231,5 +2388,6 @@ def search(ctx, broken):
         logsumexp_stream(ctx, 1500, use_driver=False)
         einsum_stream(ctx, 1500, use_driver=False)
         many_dim_stream(ctx, 150)
+        einsum_systematic(ctx, 1500, 1500)
         if sum(1 for f in ctx.failures if f.witness is not None and f.kind == "input") > n0:
             return
